@@ -37,9 +37,9 @@ Shapes == [kind : Kinds, hasfp : BOOLEAN, vtag : {"i", "u", "f", "bool", "str", 
 CaseAnalysis == part = "start" =>
   \A s \in Shapes : \A cls \in {"num", "neg", "nan", "big"} : \A neg \in BOOLEAN :
      LET d == ToRealValue(s, [cls |-> cls, limbs |-> <<5, 0>>], [neg |-> neg, limbs |-> <<200>>]) IN
-     /\ d.v = "none" <=> ~(s.kind \in {"sfp", "ufp"} /\ s.hasfp /\ s.vtag \in {"i", "u"} /\ s.vlen <= 8)
-     /\ (d.v # "none" /\ cls = "num") => (d.v = "some" /\ d.limbs = (IF neg THEN <<4, 800>> ELSE <<5, 200>>))
-     /\ (d.v # "none" /\ cls # "num") => d.v = "some-any"
+     /\ d.v = "none" <=> ~(s.kind \in {"sfp", "ufp"} /\ s.hasfp /\ s.vtag \in {"i", "u"})
+     /\ (d.v # "none" /\ cls = "num" /\ s.vlen <= 8) => (d.v = "some" /\ d.limbs = (IF neg THEN <<4, 800>> ELSE <<5, 200>>))
+     /\ (d.v # "none" /\ (cls # "num" \/ s.vlen > 8)) => d.v = "some-any"
 Boundary == part = "start" =>
   /\ ToRealValue([kind |-> "ufp", hasfp |-> TRUE, vtag |-> "u", vlen |-> 8], [cls |-> "num", limbs |-> <<9, 223, 372, 36, 854, 775, 807>>], [neg |-> FALSE, limbs |-> <<0>>]).v = "some"
   /\ ToRealValue([kind |-> "ufp", hasfp |-> TRUE, vtag |-> "u", vlen |-> 8], [cls |-> "num", limbs |-> <<9, 223, 372, 36, 854, 775, 807>>], [neg |-> FALSE, limbs |-> <<1>>]).v = "some-any"
